@@ -23,6 +23,9 @@ def scenarios(tier):
     # one producer, three messages: pure order/ties behaviour of the heap path
     for o in allops[::3]:
         sc.append((f"sl_c_{o}", ["-p", "3", "-j", "2", "--deadline", "600", f"ops={o}", "P=1", "M=3", "times=212", "anti=2"]))
+    # another thread may also run right after an atomic that changed something (before the plain code that follows it)
+    for o in (["EPEPE", "EEEEE", "PEPEE", "EEPEE"] if tier == "quick" else allops[::2]):
+        sc.append((f"pp_a_{o}", ["-p", "2", "--post-points", "-j", "2", "--deadline", "600", f"ops={o}"] + cfgs[0][1]))
     if tier == "quick":
         st_ops = ["PEPEE"]
         for o in st_ops:
